@@ -16,6 +16,11 @@ import (
 
 func init() { Registry["C08"] = runC08 }
 
+// the second topic differs from the first only by white space around its name: topic names are taken literally
+var c08FarFuture = time.Now().Add(100 * time.Hour)
+
+const c08T2 = " t1\t"
+
 type c08CancelKey struct{}
 type c08OutKey struct{}
 
@@ -51,10 +56,10 @@ var c08Shapes = []string{"none", "one", "two", "self", "twice", "err", "earlyack
 func c08Options() []c08Handler {
 	var opts []c08Handler
 	for _, s := range []string{"sA", "sB"} {
-		for _, st := range []string{"t1", "t2"} {
+		for _, st := range []string{"t1", c08T2} {
 			opts = append(opts, c08Handler{Sub: s, STopic: st, HasPub: false})
 			for _, p := range []string{"pA", "pB"} {
-				for _, pt := range []string{"t1", "t2", ""} { // "" is a topic like any other
+				for _, pt := range []string{"t1", c08T2, ""} { // "" is a topic like any other
 					opts = append(opts, c08Handler{Sub: s, STopic: st, HasPub: true, Pub: p, PTopic: pt})
 				}
 			}
@@ -176,6 +181,9 @@ func c08Run(r *tr.Run, hs []c08Handler, rng *rand.Rand) {
 				if v := msgs[i].Context().Value(c08OutKey{}); strings.Contains(msgs[i].UUID, ".o") && msgs[i] != shared && v != msgs[i].UUID {
 					intact = false
 				}
+				if dl, has := msgs[i].Context().Deadline(); strings.Contains(msgs[i].UUID, ".o") && msgs[i] != shared && string(msgs[i].Payload) == "p" && !(has && dl.Equal(c08FarFuture)) {
+					intact = false // ... and its deadline
+				}
 			}
 			cm := consumed[m]
 			for _, o := range msgs {
@@ -202,7 +210,8 @@ func c08Run(r *tr.Run, hs []c08Handler, rng *rand.Rand) {
 				o := message.NewMessage(fmt.Sprintf("%s.o%d", msg.UUID, k), []byte("p"))
 				o.Metadata.Set("k", fmt.Sprint(k))
 				// every output travels with a context of its own, which the application gave it
-				o.SetContext(context.WithValue(context.Background(), c08OutKey{}, o.UUID))
+				octx, _ := context.WithDeadline(context.WithValue(context.Background(), c08OutKey{}, o.UUID), c08FarFuture) // (... with a deadline of its own)
+				o.SetContext(octx)
 				return o
 			}
 			switch sh {
@@ -310,6 +319,12 @@ func c08Run(r *tr.Run, hs []c08Handler, rng *rand.Rand) {
 		r.Emit("hung", "what", "router did not start")
 		return
 	}
+	for _, h := range hs {
+		if len(subs[h.Sub].Subs(h.STopic)) == 0 {
+			r.Emit("hung", "what", "no subscription under the handler's subscribe topic", "h", h.Name, "topic", h.STopic)
+			return
+		}
+	}
 	// one or two messages per subscription, emitted concurrently across subscriptions
 	type em struct {
 		m       string
@@ -322,7 +337,7 @@ func c08Run(r *tr.Run, hs []c08Handler, rng *rand.Rand) {
 	var ems []em
 	k := 0
 	for _, sn := range []string{"sA", "sB"} {
-		for _, tp := range []string{"t1", "t2"} {
+		for _, tp := range []string{"t1", c08T2} {
 			for idx, spo := range subs[sn].Subs(tp) {
 				n := 1
 				if len(hs) <= 3 {
